@@ -28,13 +28,30 @@ pub fn bodies() -> Vec<(&'static str, Vec<u8>)> {
         ("single-0x80", vec![0x80]),
         ("utf8-text", "grüße".as_bytes().to_vec()),
         ("binary-8k", big),
+        // a body that quotes another protocol's opening bytes (an h2c upgrade sent optimistically, an upload about HTTP/2)
+        ("h2-preface-in-text", b"see: PRI * HTTP/2.0\r\n\r\nSM\r\n\r\n and so on".to_vec()),
     ]
 }
 
 /// every concatenation of up to three atoms: text, a non-UTF-8 byte, both line-ending styles, both blank-line
 /// styles, a header-like line — so that binary bytes, later blank lines and header-like text occur in every order
 pub fn atom_bodies() -> Vec<(String, Vec<u8>)> {
-    let atoms: [(&str, &[u8]); 7] = [("x", b"x"), ("80", &[0x80]), ("crlf", b"\r\n"), ("lf", b"\n"), ("crlfcrlf", b"\r\n\r\n"), ("lflf", b"\n\n"), ("hdr", b"X: y\r\n")];
+    // ... and the opening bytes of every protocol the analyzers recognise: HTTP/2 preface and a SETTINGS frame, an HTTP/1
+    // request line and status line, a TLS handshake record header
+    let atoms: [(&str, &[u8]); 12] = [
+        ("x", b"x"),
+        ("80", &[0x80]),
+        ("crlf", b"\r\n"),
+        ("lf", b"\n"),
+        ("crlfcrlf", b"\r\n\r\n"),
+        ("lflf", b"\n\n"),
+        ("hdr", b"X: y\r\n"),
+        ("h2preface", b"PRI * HTTP/2.0\r\n\r\nSM\r\n\r\n"),
+        ("h2settings", &[0, 0, 6, 4, 0, 0, 0, 0, 0, 0, 3, 0, 0, 0, 100]),
+        ("reqline", b"GET /other HTTP/1.1\r\nHost: y\r\n"),
+        ("statusline", b"HTTP/1.1 500 Oops\r\nServer: z\r\n"),
+        ("tlsrec", &[0x16, 3, 1, 0, 5, 1, 0, 0, 1, 0]),
+    ];
     let mut out: Vec<(String, Vec<u8>)> = vec![];
     let mut cur: Vec<(String, Vec<u8>)> = vec![(String::new(), vec![])];
     for _ in 0..3 {
@@ -221,7 +238,7 @@ pub fn run(thorough: bool) -> Outcome {
     // packet-level route: SYN, then the head (+ body) in one data segment, for the start-line and long-list families
     let d = crate::drv::db();
     for (m, fam) in msgs.iter().filter(|(_, f)| *f == "start-line" || *f == "status-line" || *f == "long-list") {
-        for (bname, body) in bodies().into_iter().filter(|(b, _)| ["empty", "gzip-magic", "header-like"].contains(b)) {
+        for (bname, body) in bodies().into_iter().filter(|(b, _)| ["empty", "gzip-magic", "header-like", "h2-preface-in-text"].contains(b)) {
             let mut data = m.head1("\r\n");
             data.extend(&body);
             if data.len() > 60000 {
@@ -257,7 +274,7 @@ pub fn run(thorough: bool) -> Outcome {
     total = total.merge(large_bodies());
     Outcome {
         report: total,
-        rule: "heads from the grammar: 16 methods x 4 targets x 2 versions; 5 status codes x 3 reasons x 2 versions; every header list of length <= 2 (3 thorough) over 14/12 names incl. case variants x 11 values (UTF-8, inner colon, brackets, empty, surrounding blanks and tabs); 98/99/100-header lists; Accept-Language lists of 1-3 tags with q-values and optional blanks; each followed by 11 bodies (binary, text with CRLF/LF blank lines, header-like); parser route and packet route; large bodies: one POST exchange with every pair of 11 request / 11 response body sizes from 0 to the largest IPv4 TCP payload x request in 1 / 2 / 2+1 segments x 3 fill bytes, reports equal to the body-less exchange; distinct = distinct reported observations".into(),
+        rule: "heads from the grammar: 16 methods x 4 targets x 2 versions; 5 status codes x 3 reasons x 2 versions; every header list of length <= 2 (3 thorough) over 14/12 names incl. case variants x 11 values (UTF-8, inner colon, brackets, empty, surrounding blanks and tabs); 98/99/100-header lists; Accept-Language lists of 1-3 tags with q-values and optional blanks; each followed by 12 bodies (binary, text with CRLF/LF blank lines, header-like, quoting the HTTP/2 preface; start and status lines: every concatenation of up to 3 of 12 atoms incl. the opening bytes of HTTP/2, HTTP/1 and TLS); parser route and packet route; large bodies: one POST exchange with every pair of 11 request / 11 response body sizes from 0 to the largest IPv4 TCP payload x request in 1 / 2 / 2+1 segments x 3 fill bytes, reports equal to the body-less exchange; distinct = distinct reported observations".into(),
         exhaustive: true,
         bounds: json!({"messages": n, "bodies": bodies().len(), "max_header_list": max}),
     }
